@@ -33,13 +33,17 @@ pub fn observe(g: &UltraGraph<i64>, b: usize, out: &mut Vec<i128>) {
             Ok(it) => { let l: Vec<usize> = it.collect(); out.push(l.len() as i128); out.extend(l.iter().map(|x| *x as i128)); }
         }
     }
-    // indices beyond 32 bits (index + 2^32) must not alias live nodes / edges: any hit is reported as 777002 count
-    let big = 1usize << 32;
+    // indices far beyond the graph (index + 2^8, 2^16, 2^32, 2^48; offsets below the observation bound are skipped) must not alias
+    // live nodes / edges: any hit is reported as 777002 count. Large bounds probe the full matrix with 2^32 only.
     let mut alias = 0i128;
-    for i in 0..b {
-        if g.contains_node(i + big) || g.get_node(i + big).is_some() || g.outgoing_edges(i + big).is_ok() { alias += 1; }
-        for j in 0..b {
-            if g.contains_edge(i + big, j) || g.contains_edge(i, j + big) { alias += 1; }
+    for sh in [8u32, 16, 32, 48] {
+        let big = 1usize << sh;
+        if big < b || (b > 40 && sh != 32) { continue; }
+        for i in 0..b {
+            if g.contains_node(i + big) || g.get_node(i + big).is_some() || g.outgoing_edges(i + big).is_ok() { alias += 1; }
+            for j in 0..b {
+                if g.contains_edge(i + big, j) || g.contains_edge(i, j + big) { alias += 1; }
+            }
         }
     }
     if alias > 0 { out.push(777002); out.push(alias); }
